@@ -26,6 +26,7 @@ let handle (line : string) : string =
   | "fsm" :: rest -> Fsm_io.run_fsm rest
   | "mem" :: rest -> Fsm_io.run_mem rest
   | "node" :: rest -> Node_io.run_node rest
+  | "skip" :: rest -> "skip " ^ String.concat " " rest
   | [] -> ""
   | k :: _ -> "unknown-case " ^ k
 
